@@ -27,6 +27,8 @@ def cases(tier, seed):
     out = []
     reps = 1 if tier == 'quick' else 3
     for prog in progs.cat():
+        if {'fancy', 'nonunique'} & prog.tags:
+            continue        # advanced (list) indexing is outside the property's program class (basic indexing and views)
         for (D, P) in DPs(tier):
             if prog.maxD and D > prog.maxD:
                 continue
@@ -48,7 +50,7 @@ def cases(tier, seed):
 
 def required():
     # 'refused': the tracer has no method / no pb_ for it and raises (the documented refusal), counted as skips
-    return ['single:' + p.name for p in progs.cat() if not ({'nopb', 'refused'} & p.tags) and p.name not in ('dot:TM',)] + ['comp']
+    return ['single:' + p.name for p in progs.cat() if not ({'nopb', 'refused', 'fancy', 'nonunique'} & p.tags) and p.name not in ('dot:TM',)] + ['comp']
 
 
 NOT_TRACEABLE_OK = True
